@@ -65,6 +65,89 @@ def extract(ctx):
     t = rw.std(t)
     out.append(t)
     common.write(ctx, 'hmap.inc', '\n'.join(out) + '\n')
+    # ---- erase protocol: unlink under the bucket's writer lock, then take the element's WRITER lock before deletion ----
+    rw2 = Rewriter('erase')
+    out = []
+    s = slice_block(HM, r'inline bool check_mask_race\( const hashcode_type h, hashcode_type &m \) const')
+    sliced.append('%s:%d hash_map_base::check_mask_race' % (HM, s.line))
+    t = rw2.sub(s.text, r'inline bool check_mask_race\( const hashcode_type h, hashcode_type &m \) const', 'static bool check_mask_race(struct chm* self, const hashcode_type h, hashcode_type *m)', 1, 1, name='sig (ref-param -> pointer)')
+    t = rw2.sub(t, r'm_old = m;', 'm_old = *m;', 1, 1, name='ref-param')
+    t = rw2.sub(t, r'\(h, m_old, m = m_now\)', '(h, m_old, *m = m_now)', 1, 1, name='ref-param')
+    t = rw2.sub(t, r'\bcheck_rehashing_collision\(', 'STUB_check_rehashing_collision(self, ', 1, 1, name='callee stub (proved in job rehash.collision)')
+    t = rw2.atomics(t, ['my_mask'], 1)
+    t = rw2.sub(t, r'(?<![\w.>])my_mask\b', 'self->my_mask', 1, name='field')
+    out.append(t)
+
+    def scope_exits(t, var):
+        """RAII: bucket_accessor `var` is destroyed at every exit of its scope: before each return / goto restart inside it and at its closing brace."""
+        m = re.search(r'struct bucket_accessor %s;' % var, t)
+        if not m:
+            raise ExtractionBreak('erase: bucket_accessor declaration not found')
+        # scope start: the innermost '{' before the declaration
+        depth, i = 0, m.start()
+        while i >= 0:
+            if t[i] == '}': depth += 1
+            elif t[i] == '{':
+                if depth == 0: break
+                depth -= 1
+            i -= 1
+        j = cxx2c.match_close(t, i)
+        body = t[m.end():j]
+        body, n1 = re.subn(r'\breturn ([^;]*);', r'{ BA_dtor(&%s); return \1; }' % var, body)
+        body, n2 = re.subn(r'\bgoto restart;', r'{ BA_dtor(&%s); CUT_restart(); }' % var, body)   # retry = back to a state the entry path already covers: assert that, stop the path
+        body, n3 = re.subn(r'\bcontinue;', r'{ BA_dtor(&%s); CUT_restart(); }' % var, body)
+        body, n5 = re.subn(r'\bgoto search;', r'CUT_search(&%s);' % var, body)
+        body, n4 = re.subn(r'\bbreak;', r'{ BA_dtor(&%s); break; }' % var, body)
+        rw2.fired['RAII scope exit -> explicit destructor call'] = rw2.fired.get('RAII scope exit -> explicit destructor call', 0) + n1 + n2 + n3 + n4 + 1
+        rw2.fired['retry jump -> inductive cut (assert entry-covered state; end path)'] = rw2.fired.get('retry jump -> inductive cut (assert entry-covered state; end path)', 0) + n2 + n3 + n5
+        return t[:m.end()] + body + 'BA_dtor(&%s); ' % var + t[j:]
+
+    s = slice_block(HM, r'bool internal_erase\( const K& key \)')
+    sliced.append('%s:%d concurrent_hash_map::internal_erase' % (HM, s.line))
+    t = rw2.sub(s.text, r'bool internal_erase\( const K& key \)', 'static bool internal_erase(struct chm* self, key_type key)', 1, 1, name='sig + bind-template(K)')
+    t = rw2.sub(t, r'my_hash_compare\.hash\(key\)', 'STUB_hash(key)', 1, 1, name='callee stub (user hash)')
+    t = rw2.sub(t, r'!my_hash_compare\.equal\(key, static_cast<node\*>\(erase_node\)->value\(\)\.first \)', '!STUB_equal(key, erase_node)', 1, 1, name='callee stub (user equality)')
+    t = rw2.sub(t, r'bucket_accessor b\( this, hash & mask \);', 'struct bucket_accessor b; BA_ctor(&b, self, hash & mask, false);', 1, 1, name='RAII ctor (default writer=false)')
+    t = rw2.sub(t, r'search:\s*node_base\* prev = nullptr;', 'search: GHOST_SEARCH_START(); node_base* prev = NULL;', 1, 1, name='label + ghost hook')
+    t = rw2.sub(t, r'\bb\(\)->node_list\.load\(std::memory_order_relaxed\)', 'BA_bucket(&b)->node_list', 1, 1, name='operator() + plain load under the bucket lock')
+    t = rw2.sub(t, r'\bb\(\)->node_list\.store\(erase_node->next, std::memory_order_relaxed\);', 'UNLINK_HEAD(&b, erase_node);', 1, 1, name='list head store -> UNLINK_HEAD (store + obligations)')
+    t = rw2.sub(t, r'prev->next = erase_node->next;', 'UNLINK_AFTER(&b, prev, erase_node);', 1, 1, name='link store -> UNLINK_AFTER (store + obligations)')
+    t = rw2.sub(t, r'this->is_valid\(', 'IS_VALID(', 1, 1, name='callee')
+    t = rw2.sub(t, r'this->check_mask_race\(hash, mask\)', 'check_mask_race(self, hash, &mask)', 2, 2, name='ref-arg')
+    t = rw2.sub(t, r'\bb\.is_writer\(\)', 'BA_is_writer(&b)', 1, 1, name='method')
+    t = rw2.sub(t, r'\bb\.upgrade_to_writer\(\)', 'BA_upgrade_to_writer(&b)', 1, 1, name='method')
+    t = rw2.sub(t, r'this->my_size--;', 'ATOMIC_DEC(self->my_size);', 1, 1, name='atomic')
+    t = rw2.sub(t, r'typename node::scoped_type item_locker\( erase_node->mutex, (?:/\*write=\*/)?\s*(\w+) \);', r'ELEM_SCOPED_LOCK(erase_node, \1);', 1, 1, name='RAII element lock, destroyed at the end of its own block')
+    t = rw2.sub(t, r'delete_node\(erase_node\);', 'STUB_delete_node(self, erase_node);', 1, 1, name='callee stub')
+    t = rw2.atomics(t, ['my_mask'], 1, obj=r'this->')
+    t = rw2.sub(t, r'this->my_mask', 'self->my_mask', 1, name='field')
+    t = scope_exits(t, 'b')
+    t = rw2.std(t)
+    t = tag_loops(t, 'erase', rw2, expect=1)
+    out.append(t)
+    s = slice_block(HM, r'bool exclude\( const_accessor &item_accessor \)')
+    sliced.append('%s:%d concurrent_hash_map::exclude' % (HM, s.line))
+    t = rw2.sub(s.text, r'bool exclude\( const_accessor &item_accessor \)', 'static bool exclude(struct chm* self, struct const_accessor *item_accessor)', 1, 1, name='sig')
+    t = rw2.sub(t, r'item_accessor\.(my_node|my_hash)\b', r'item_accessor->\1', 3, name='ref-param')
+    t = rw2.sub(t, r'item_accessor\.(release|is_writer|upgrade_to_writer)\(\)', r'ACC_\1(item_accessor)', 4, 4, name='method')
+    t = rw2.sub(t, r'bucket_accessor b\( this, hash & mask, (?:/\*writer=\*/)?true \);', 'struct bucket_accessor b; BA_ctor(&b, self, hash & mask, true);', 1, 1, name='RAII ctor')
+    t = rw2.sub(t, r'node_base\* prev = nullptr;', 'GHOST_SEARCH_START(); node_base* prev = NULL;', 1, 1, name='ghost hook')
+    t = rw2.sub(t, r'\bb\(\)->node_list\.load\(std::memory_order_relaxed\)', 'BA_bucket(&b)->node_list', 1, 1, name='operator() + plain load under the bucket lock')
+    t = rw2.sub(t, r'\bb\(\)->node_list\.store\(curr->next, std::memory_order_relaxed\);', 'UNLINK_HEAD(&b, curr);', 1, 1, name='list head store -> UNLINK_HEAD')
+    t = rw2.sub(t, r'prev->next = curr->next;', 'UNLINK_AFTER(&b, prev, curr);', 1, 1, name='link store -> UNLINK_AFTER')
+    t = rw2.sub(t, r'this->check_mask_race\(hash, mask\)', 'check_mask_race(self, hash, &mask)', 1, 1, name='ref-arg')
+    t = rw2.sub(t, r'this->my_size--;', 'ATOMIC_DEC(self->my_size);', 1, 1, name='atomic')
+    t = rw2.sub(t, r'delete_node\(exclude_node\);', 'STUB_delete_node(self, exclude_node);', 1, 1, name='callee stub')
+    t = rw2.atomics(t, ['my_mask'], 1, obj=r'this->')
+    t = rw2.sub(t, r'this->my_mask', 'self->my_mask', 1, name='field')
+    t = rw2.asserts(t, 2)
+    t = scope_exits(t, 'b')
+    t = rw2.std(t)
+    t = tag_loops(t, 'excl', rw2, expect=2)
+    t = t.replace('LOOP_excl_1', '')   # the retry loop is cut (see above): its body runs once
+    out.append(t)
+    common.write(ctx, 'erase.inc', '\n'.join(out) + '\n')
+    fired['erase'] = rw2.fired
     fired['hash_map_base'] = rw.fired
     return sliced, fired
 
@@ -76,13 +159,17 @@ def build(ctx):
         Job('seg.bijection', C, 'h_seg', route='LF', target='hash_map_base::segment_index_of/segment_base/segment_size', source=HM),
         Job('bucket.address', C, 'h_get_bucket', route='LF', target='hash_map_base::get_bucket', source=HM),
         Job('rehash.collision', C, 'h_collision', route='LW', unwind=66, target='hash_map_base::check_rehashing_collision', source=HM, timeout=600),
+        Job('erase.by_key', C, 'h_erase', route='RG', defines=['ERASE'], loops=True, nloops=1, unwind=3, target='concurrent_hash_map::internal_erase + check_mask_race', source=HM, timeout=600),
+        Job('erase.by_accessor', C, 'h_exclude', route='RG', defines=['ERASE'], loops=True, nloops=1, unwind=3, target='concurrent_hash_map::exclude', source=HM, timeout=600),
         Job('rehash.parent', C, 'h_parent', route='LF', target='concurrent_hash_map::rehash_bucket parent/mask computation', source=HM),
     ]
     return {
         'jobs': jobs, 'sliced': sliced, 'fired': fired,
-        'trusted': ['__builtin_clzl as modelled by CBMC', 'rehash_required / bucket contents: stub recording which bucket is examined', 'element and bucket locks are spin_rw_mutex (C08)'],
+        'trusted': ['__builtin_clzl as modelled by CBMC', 'rehash_required / bucket contents: stub recording which bucket is examined', 'element and bucket locks are spin_rw_mutex (C08): a writer lock is granted only when no reader or writer holds it; upgrade_to_writer returning false means the lock was released and re-acquired',
+                    'bucket_accessor constructor / rehash_bucket: stub that yields the bucket locked in the requested mode or as writer (after a rehash), with an arbitrary list', 'user hash / equality: arbitrary pure functions',
+                    'retry jumps (goto restart / goto search / continue) are cut inductively: the state at the jump is asserted to lie in the set the entry path explores, then the path ends'],
         'drops': ['std::atomic loads -> ATOMIC_LOAD', '__TBB_ASSERT -> proof obligation'],
-        'not_decided': ['interleavings of lookup / insert / erase', 'accessor lifetime', 'lazy rehash under concurrent lookups (rehash_bucket list surgery, bucket_accessor)', 'enable_segment / insert_new_node growth protocol'],
+        'not_decided': ['interleavings of lookup / insert (lookup<insert>, insert_new_node)', 'accessor lifetime on the lookup side (the accessor is attached under the bucket lock)', 'that the bucket locked after a mask race without collision still is the key\'s bucket (rehash.collision gives the arithmetic only)', 'lazy rehash under concurrent lookups (rehash_bucket list surgery, bucket_accessor)', 'enable_segment / insert_new_node growth protocol'],
         'assumptions': ['masks passed to check_rehashing_collision are of the form 2^a-1 with m_old < m (they are values of my_mask, which only grows)'],
     }
 
